@@ -28,8 +28,12 @@ script, K, SIG, logpath = sys.argv[1], int(sys.argv[2]), int(sys.argv[3]), sys.a
 log = open(logpath, "a", buffering=1)
 
 
+_count = [0]  # line events of run.py so far (shared with the tracer below)
+
+
 def emit(**kw):
     try:
+        kw.setdefault("n", _count[0])
         log.write(json.dumps(kw) + "\n")
     except Exception:
         pass
@@ -157,7 +161,7 @@ def _try_body_lines():
 
 
 TRY, HANDLERS, RUNFN = _try_body_lines()
-count = [0]
+count = _count
 
 
 def _runner_of(frame):
